@@ -256,7 +256,10 @@ func scenClient(r *run) {
 			defer wg.Done()
 			for _, op := range ops {
 				if op.ThinkUs > 0 {
-					time.Sleep(time.Duration(op.ThinkUs) * time.Microsecond)
+					cs.r.nap(time.Duration(op.ThinkUs) * time.Microsecond)
+				}
+				if cs.r.closing() {
+					return
 				}
 				cs.doOp(client, op)
 			}
